@@ -304,6 +304,17 @@ def check_edits(rec, rng, a, b, who, case, peer=None):
     if d:
         rec.violation("edit-of-%s-changes-the-other:%s.%s" % (who, d[0].get("kind"), d[0]["field"]),
                       "after %s: %r" % (acts, d[:2]), case)
+    elif peer is not None and kind(a) == kind(peer):
+        # equality is a matter of content: once the edits have changed a name, a value or a text attribute of one
+        # side, the two are no longer equal - whatever their ids
+        rec.monitor("equality-follows-content")
+        plain = [x for x in model.diff(model.model_of(a), model.model_of(peer), ignore=("id",))
+                 if x["field"] in ("name", "values", "definition", "reference", "unit", "type", "dtype", "author", "version")]
+        try:
+            if plain and a == peer:
+                rec.violation("edited-%s-still-equal-to-the-other" % who, "after %s: %r" % (acts, plain[:1]), case)
+        except Exception as exc:
+            rec.violation("equality-raised-%s" % type(exc).__name__, repr(exc), case)
     for a_ in acts:
         rec.count("edits", a_)
 
@@ -369,7 +380,9 @@ def check_template(ctx, case, sdir):
     with warnings.catch_warnings():
         warnings.simplefilter("ignore")
         doc = gen.build_doc(spec)
-        path = os.path.join(sdir, "tmpl_%d.xml" % case["i"])
+        # every template file has the same base name; only the directory differs
+        os.makedirs(os.path.join(sdir, "tmpl_%d" % case["i"]), exist_ok=True)
+        path = os.path.join(sdir, "tmpl_%d" % case["i"], "template.xml")
         try:
             odml.save(doc, path)
         except Exception:
@@ -394,6 +407,26 @@ def check_template(ctx, case, sdir):
                         rec.violation("clone_section/shares-objects-with-cached-template", "", case)
                     if cp.parent is not None:
                         rec.violation("clone_section/not-detached", "", case)
+                    # the copy is a copy of the Section stored at *this* url: names of the Section the file was written
+                    # from (the built document), not only of what the handler holds for the url
+                    # (read here directly from the file, without the handler and its cache, by the lenient reader the handler uses)
+                    from odml.tools.xmlparser import XMLReader
+                    direct = XMLReader(ignore_errors=True, show_warnings=False).from_file(path)
+                    same = [s_ for s_ in list(direct.sections) if s_.__dict__.get("_name") == sec.name]
+                    if not same:
+                        continue
+                    built = model.model_of(same[0])
+                    got_names = (sorted(c_.name for c_ in cp.sections), sorted(p_.name for p_ in cp.properties))
+                    want_names = (sorted(c_["name"] for c_ in built["sections"]), sorted(p_["name"] for p_ in built["properties"])) \
+                        if children else ([], [])
+                    # (objects the lenient reader replaced by default ones carry a fresh random id as name in every read: not compared)
+                    import re as _re
+                    _u = _re.compile(r"^[0-9a-f]{8}-[0-9a-f]{4}-[0-9a-f]{4}-[0-9a-f]{4}-[0-9a-f]{12}$")
+                    got_names = tuple([n_ for n_ in l_ if not _u.match(str(n_))] for l_ in got_names)
+                    want_names = tuple([n_ for n_ in l_ if not _u.match(str(n_))] for l_ in want_names)
+                    if cp.name != sec.name or got_names != want_names:
+                        rec.violation("clone_section/not-the-section-stored-at-the-url", "%r %r, expected %r %r" % (
+                            cp.name, got_names, sec.name, want_names), case)
                     mo, mc = model.model_of(cached), model.model_of(cp)
                     if not children:
                         mo = dict(mo, sections=[], properties=[])
